@@ -87,3 +87,32 @@ def replay_dict(inputs, obl):
     if problems:
         return dict(confirmed=True, detail='; '.join(problems[:3]))
     return dict(confirmed=False, detail='dictionary histories agree with the finite-map model')
+
+
+def key_kind_rows():
+    """bounded stand-in: keys of different KINDS that carry the same text are different keys (a character, a string and a symbol; an
+    integer and a string of its digits), whatever the order in which they are added: #d, d?k and removal are checked per pair and order"""
+    from klongpy import KlongInterpreter
+    from klongpy.core import KLONG_UNDEFINED
+    kinds = {'char': '0ca', 'string': '"a"', 'symbol': ':a', 'string1': '"1"', 'integer': '1'}
+    pairs = [('char', 'string'), ('char', 'symbol'), ('string', 'symbol'), ('integer', 'string1')]
+    rows = []
+    for a, b in pairs:
+        bad = []
+        for x, y in ((a, b), (b, a)):
+            k = KlongInterpreter()
+            try:
+                k(f'd:::{{[{kinds[x]} 10]}}')
+                k(f'd,[{kinds[y]} 20]')
+                n, vx, vy = k('#d'), k(f'd?{kinds[x]}'), k(f'd?{kinds[y]}')
+                if n != 2 or vx != 10 or vy != 20:
+                    bad.append(f"d:::{{[{kinds[x]} 10]}};d,[{kinds[y]} 20]: #d={n}, d?{kinds[x]}={vx}, d?{kinds[y]}={vy} (two keys, 10 and 20)")
+                    continue
+                k(f'{kinds[x]}_d')
+                n2, vy2, vx2 = k('#d'), k(f'd?{kinds[y]}'), k(f'd?{kinds[x]}')
+                if n2 != 1 or vy2 != 20 or vx2 is not KLONG_UNDEFINED:
+                    bad.append(f"after removing {kinds[x]}: #d={n2}, d?{kinds[y]}={vy2}, d?{kinds[x]}={vx2}")
+            except Exception as e:
+                bad.append(f"{kinds[x]} then {kinds[y]}: raised {type(e).__name__}: {str(e)[:60]}")
+        rows.append((f"{a}-vs-{b}", not bad, '; '.join(bad[:2]) or f"{kinds[a]} and {kinds[b]} are two keys in either order"))
+    return rows
